@@ -18,6 +18,7 @@ char *format(char *fmt, ...) {
 bool file_exists(char *path) { if (path == LOCAL1) return EXL1; if (path == LOCAL2) return EXL2; for (int i = 0; i < NP; i++) if (path == P[i]) return EX[i]; return 0; }
 void *hashmap_get(HashMap *map, char *key) { return 0; }
 void hashmap_put(HashMap *map, char *key, void *val) { }
+char *strdup(const char *s) { size_t n = strlen(s); char *p = malloc(n + 1); for (size_t i = 0; i <= n; i++) p[i] = s[i]; return p; }
 char *strndup(const char *s, size_t n) { char *p = malloc(n + 1); for (size_t i = 0; i < n; i++) p[i] = s[i]; p[n] = 0; return p; }
 bool equal(Token *tok, char *op) { size_t n = strlen(op); return (size_t)tok->len == n && !memcmp(tok->loc, op, n); }
 static Token T[8]; static File F1, F2;
